@@ -89,8 +89,8 @@ def initialize_dates_from_taxa(tree, taxa, tag='date'):
     dates = [taxon[tag] for taxon in taxa]
     max_date = max(dates)
 
-    # parse dates
-    if max_date != 0.0:
+    # parse dates (dates measured back from the most recent sample are all <= 0)
+    if max_date != 0.0 or min(dates) != 0.0:
         # time starts at 0
         if min(dates) == 0.0:
             for node in tree.leaf_node_iter():
